@@ -34,7 +34,9 @@ fn item_handle(d: usize, ns: usize, e: usize) -> usize { d * 10000 + ns * 100 + 
 
 fn make_item(d: usize, ns: usize, e: usize) -> Tag24<IssuerSignedItem> {
     let h = item_handle(d, ns, e);
-    Tag24::new(IssuerSignedItem { digest_id: DigestId::new(h as i32), random: ByteStr::from(vec![7u8; 16]),
+    // digestIDs are unique within a namespace only: in every second document the namespaces reuse each other's ids
+    let did = if d % 2 == 1 { e } else { h };
+    Tag24::new(IssuerSignedItem { digest_id: DigestId::new(did as i32), random: ByteStr::from(vec![7u8; 16]),
         element_identifier: ename(e), element_value: Value::Integer((h as i64).into()) }).unwrap()
 }
 fn handle_of(t: &Tag24<IssuerSignedItem>) -> String {
@@ -184,6 +186,15 @@ pub fn run(ctx: &mut Ctx) {
         if c.held.is_empty() || c.req.is_empty() { continue; }
         run_case(ctx, "exhaustive", &pki, &template, &transcript, &c);
     } } }
+    // 1b. exhaustive small scope ACROSS namespaces: one document (index 1: its namespaces reuse each other's digestIDs) with two
+    //     namespaces of two elements; all held / request / permit subsets
+    for held_mask in 1..16u32 { for req_mask in 1..16u32 { for perm_mask in 0..16u32 {
+        let pick = |m: u32, ns: usize| -> Vec<usize> { (0..2).filter(|e| m & (1 << (ns * 2 + e)) != 0).collect() };
+        let mk = |m: u32| -> BTreeMap<usize, Vec<usize>> { (0..2usize).filter_map(|ns| { let v = pick(m, ns); if v.is_empty() { None } else { Some((ns, v)) } }).collect() };
+        let mut c = Case { held: BTreeMap::new(), req: vec![], perm: BTreeMap::new() };
+        c.held.insert(1, (true, mk(held_mask))); c.req.push((1, mk(req_mask))); if perm_mask != 0 { c.perm.insert(1, mk(perm_mask)); }
+        run_case(ctx, "exhaustive-namespaces", &pki, &template, &transcript, &c);
+    } } }
     // 2. random larger cases (several docs/namespaces, unheld ids, supersets, duplicates, duplicate doc requests)
     for _ in 0..(if ctx.thorough { 100_000 } else { 3_000 }) {
         let c = gen_case(ctx, None);
@@ -217,10 +228,19 @@ pub fn run(ctx: &mut Ctx) {
                     old.req = c0.held.iter().map(|(d, (_, nss))| (*d, nss.clone())).collect();
                     old.perm = c0.held.iter().map(|(d, (_, nss))| (*d, nss.clone())).collect();
                 }
+                let everything = old.req.len() == c0.held.len() && old.perm.len() == c0.held.len();
                 if !old.req.is_empty() {
                     isomdl::presentation::device::SessionManager::prepare_response(&mut dev, &to_requests(&old), to_permitted(&old));
-                    if ctx.rng.gen_bool(0.5) && dev.get_next_signature_payload().is_some() { dev.submit_next_signature(vec![8; 64]).unwrap(); }
+                    // sign one document and leave the rest (always, when everything was asked for: with two or more documents the
+                    // state then stays Signing with one signed document in it)
+                    if (everything || ctx.rng.gen_bool(0.5)) && dev.get_next_signature_payload().is_some() { dev.submit_next_signature(vec![8; 64]).unwrap(); }
                     if dev.response_ready() { let _ = dev.retrieve_response(); }
+                    // half of the time the request answered next is the abandoned one NARROWED: same document types, one element each
+                    if everything && ctx.rng.gen_bool(0.5) {
+                        let narrow = |m: &BTreeMap<usize, Vec<usize>>| -> BTreeMap<usize, Vec<usize>> { m.iter().take(1).map(|(ns, es)| (*ns, es.iter().take(1).cloned().collect())).collect() };
+                        c.req = old.req.iter().map(|(d, nss)| (*d, narrow(nss))).collect();
+                        c.perm = old.perm.iter().map(|(d, nss)| (*d, narrow(nss))).collect();
+                    }
                 }
             }
             isomdl::presentation::device::SessionManager::prepare_response(&mut dev, &to_requests(&c), to_permitted(&c));
